@@ -68,7 +68,7 @@ def _walk(args):
             bad = []
             if ob["kind"] == "unspecified":
                 pass
-            elif ob["kind"] in ("RuntimeError", "ValueError"):
+            elif ob["kind"] in ("RuntimeError", "ValueError", "NotImplementedError"):
                 if outcome != ob["kind"]:
                     bad.append(("Outcome", f"expected {ob['kind']}, got {outcome}"))
             else:
